@@ -165,6 +165,91 @@ pub fn handle(parts: &[&str], out: &mut impl Write) {
     out.flush().unwrap();
 }
 
+/// Observation of the sprite plus (impl-only, `mapperx`) what `util::PaletteMapper` built from
+/// its palette answers for every palette colour: the answer for a colour stored at several
+/// indices depends on the iteration order of the palette's map.
+fn observe_all(ase: &AsepriteFile, len: usize) -> Vec<String> {
+    let mut lines = Vec::new();
+    crate::observe(false, ase, len, &mut lines);
+    if let Some(pal) = ase.palette() {
+        let mapper = asefile::util::PaletteMapper::new(
+            pal,
+            asefile::util::MappingOptions {
+                failure: 0,
+                transparent: None,
+            },
+        );
+        let mut v = Vec::new();
+        for i in 0..1024u32 {
+            if let Some(e) = pal.color(i) {
+                v.push(mapper.lookup(e.red(), e.green(), e.blue(), 255).to_string());
+            }
+        }
+        lines.push(format!("mapperx {}", v.join(",")));
+    }
+    lines
+}
+
+/// `HISTORY <id> <hexA> <hexB>` — on ONE thread: load A, observe it, drop it, then load B and
+/// observe it; prints B's observation and a `differs` line when it is not the observation of B
+/// made on a fresh thread with no history.
+pub fn handle_history(parts: &[&str], out: &mut impl Write) {
+    if parts.len() != 4 {
+        writeln!(out, "bad-op").unwrap();
+        return;
+    }
+    writeln!(out, "CASE {}", parts[1]).unwrap();
+    out.flush().unwrap();
+    match (crate::unhex(parts[2]), crate::unhex(parts[3])) {
+        (Some(a), Some(b)) => {
+            let b2 = b.clone();
+            let fresh = std::thread::spawn(move || {
+                crate::guard(|| {
+                    let ase = AsepriteFile::read(io::Cursor::new(&b2)).ok()?;
+                    Some(observe_all(&ase, b2.len()))
+                })
+                .flatten()
+            })
+            .join()
+            .ok()
+            .flatten();
+            let after = std::thread::spawn(move || {
+                crate::guard(|| {
+                    for _ in 0..2 {
+                        if let Ok(first) = AsepriteFile::read(io::Cursor::new(&a)) {
+                            let _ = observe_all(&first, a.len());
+                            drop(first);
+                        }
+                    }
+                    let ase = AsepriteFile::read(io::Cursor::new(&b)).ok()?;
+                    Some(observe_all(&ase, b.len()))
+                })
+                .flatten()
+            })
+            .join()
+            .ok()
+            .flatten();
+            match (&fresh, &after) {
+                (Some(f), Some(h)) => {
+                    writeln!(out, "load ok").unwrap();
+                    for l in h {
+                        writeln!(out, "{}", l).unwrap();
+                    }
+                    if f != h {
+                        let k = f.iter().zip(h.iter()).position(|(x, y)| x != y).unwrap_or(0);
+                        let show = |v: &Vec<String>| v.get(k).map(|s| s.chars().take(160).collect::<String>()).unwrap_or_default();
+                        writeln!(out, "differs after-history line {} fresh=[{}] after=[{}]", k, show(f), show(h)).unwrap();
+                    }
+                }
+                _ => writeln!(out, "load failed-or-panicked").unwrap(),
+            }
+        }
+        _ => writeln!(out, "bad-hex").unwrap(),
+    }
+    writeln!(out, "END").unwrap();
+    out.flush().unwrap();
+}
+
 /// `THREADS <id> <hex> <n>` — load once, observe from `n` threads sharing one
 /// `&AsepriteFile`, then load a second time and observe again; prints the first
 /// observation and, for every other one that differs, a `differs` line.
@@ -190,27 +275,17 @@ pub fn handle_threads(parts: &[&str], out: &mut impl Write) {
                         let hs: Vec<_> = (0..n)
                             .map(|_| {
                                 s.spawn(move || {
-                                    crate::guard(|| {
-                                        let mut lines = Vec::new();
-                                        crate::observe(false, ase_ref, len, &mut lines);
-                                        lines
-                                    })
+                                    crate::guard(|| observe_all(ase_ref, len))
                                 })
                             })
                             .collect();
                         hs.into_iter().map(|h| h.join().ok().flatten()).collect()
                     });
                     // same sprite observed again sequentially, and a second load
-                    let again = crate::guard(|| {
-                        let mut lines = Vec::new();
-                        crate::observe(false, &ase, len, &mut lines);
-                        lines
-                    });
+                    let again = crate::guard(|| observe_all(&ase, len));
                     let second = crate::guard(|| {
                         let ase2 = AsepriteFile::read(io::Cursor::new(&bytes)).ok()?;
-                        let mut lines = Vec::new();
-                        crate::observe(false, &ase2, len, &mut lines);
-                        Some(lines)
+                        Some(observe_all(&ase2, len))
                     })
                     .flatten();
                     match &obs[0] {
